@@ -428,6 +428,20 @@ def _coerce(o):
     return None
 
 
+def _coerce_cmp(o):
+    """comparison operand: additionally accepts integral decimal.Decimal / float constants
+    (comparing an int with them is exact in Python)"""
+    r = _coerce(o)
+    if r is None and not isinstance(o, (str, bytes)):
+        try:
+            import decimal
+            if isinstance(o, (decimal.Decimal, float)) and o == int(o):
+                return int(o)
+        except (ValueError, OverflowError, ArithmeticError):
+            return None
+    return r
+
+
 class SymInt:
     __slots__ = ("e", "lo", "hi", "inx")
 
@@ -799,7 +813,7 @@ class SymInt:
 
     # -- comparisons -----------------------------------------------------------------------
     def _cmp(self, o, f, dis_lt, dis_gt):
-        o = _coerce(o)
+        o = _coerce_cmp(o)
         if o is None:
             return NotImplemented
         self._exact("comparison")
@@ -832,7 +846,7 @@ class SymInt:
         return self._cmp(o, lambda a, b: a < b, True, False)
 
     def __le__(self, o):
-        o2 = _coerce(o)
+        o2 = _coerce_cmp(o)
         if o2 is not None:
             olo = o2 if isinstance(o2, int) else o2.lo
             if self.hi <= olo:
@@ -843,7 +857,7 @@ class SymInt:
         return self._cmp(o, lambda a, b: a > b, False, True)
 
     def __ge__(self, o):
-        o2 = _coerce(o)
+        o2 = _coerce_cmp(o)
         if o2 is not None:
             ohi = o2 if isinstance(o2, int) else o2.hi
             if self.lo >= ohi:
